@@ -111,4 +111,14 @@ def nextLevelOK (g' : Geom) (k : Nat) (p : Pat) : Bool :=
     ((pre == lits g'.site ++ nRun g'.off && suf == nRun g'.off ++ lits (rcNt g'.site) && k == g'.k) ||
      (pre == lits g'.site ++ nRun g'.off ++ nRun g'.k && suf == nRun g'.k ++ nRun g'.off ++ lits (rcNt g'.site)))
 
+/-- `YTKProduct.structure()` in closed form: `CGTCTC N (NNGG)(TCTC N NNNN N*? NNNN N GA)(GACC) N GAGACG` — the
+BsaI site of the next level is spelt half by the product's upstream overhang, half by its target -/
+def ytkProductPat : Pat :=
+  (lits [.C, .G, .T, .C, .T, .C] ++ nRun 1) ++ [.gopen] ++ [.cls .N, .cls .N, .cls .G, .cls .G] ++ [.gclose, .gopen] ++
+    ((lits [.T, .C, .T, .C] ++ nRun 5) ++ [.star .N false] ++ (nRun 5 ++ lits [.G, .A])) ++ [.gclose, .gopen] ++
+    lits [.G, .A, .C, .C] ++ [.gclose] ++ (nRun 1 ++ lits [.G, .A, .G, .A, .C, .G])
+
+/-- BsaI, the cutter of the YTK next level -/
+def bsaI : Geom := { site := [.G, .G, .T, .C, .T, .C], off := 1, k := 4 }
+
 end Moclo
